@@ -116,7 +116,7 @@ package kv
 //@   modifies elems(fsm.store.m), elems(entries)
 //@   dead return 1
 //@   dead return 2
-//@   loop 0 invariant fsm.store == old(fsm.store) && fsm.store.m == old(fsm.store.m) && -1 <= rangeindex && (rangeindex < len(entries) || len(entries) == 0)
+//@   loop 0 invariant fsm.store == old(fsm.store) && fsm.store.m == old(fsm.store.m) && -1 <= rangeindex && rangeindex < len(entries)
 //@   loop 0 invariant forall i Int :: 0 <= i && i < len(entries) ==> entries[i].Index == old(entries[i].Index) && sameSlice(entries[i].Cmd, old(entries[i].Cmd))
 //@   loop 0 invariant forall i Int :: 0 <= i && i <= rangeindex ==> entries[i].Result.Value == 1 || entries[i].Result.Value == 2
 //@   loop 0 invariant rangeindex + 1 < len(entries) ==> forall k string :: has(fsm.store.m, k) ==> fsm.store.m[k].Ver < entries[rangeindex+1].Index
